@@ -95,6 +95,61 @@ let icc_desc data = match run_description data with
   | Ok set -> "ok " ^ String.concat "|" (List.map hex_of_bytes set)
   | Err e -> perr_s e
 
+(* ---------- metadata loaders ---------- *)
+exception Need of string
+let inflate_table : (string, byte list option) Hashtbl.t = Hashtbl.create 16
+let inflate (z : byte list) : byte list option =
+  let k = hex_of_bytes z in
+  match Hashtbl.find_opt inflate_table k with
+  | Some r -> r
+  | None -> raise (Need ("inflate " ^ k))
+
+(* "zhex:outhex;zhex:!" *)
+let load_inflate_table (s : string) =
+  Hashtbl.reset inflate_table;
+  if s <> "-" then
+    List.iter (fun e ->
+      match String.split_on_char ':' e with
+      | [z; o] -> Hashtbl.replace inflate_table z (if o = "!" then None else Some (bytes_of_hex o))
+      | _ -> ()) (String.split_on_char ';' s)
+
+let fmt_s = function PNG -> "PNG" | JPEG -> "JPEG" | WEBP -> "WebP"
+let icc_s = function IccNone -> "none" | IccErr -> "iccerr" | IccData d -> "data:" ^ hex_of_bytes d
+let md_s (m : mdata) = Printf.sprintf "%s %s %s %s %s" (fmt_s m.md_format) (hex_of_n m.md_w) (hex_of_n m.md_h) (hex_of_n m.md_bits) (icc_s m.md_icc)
+let res_md_s = function Ok m -> "ok " ^ md_s m | Err EFuel -> "FUEL" | Err _ -> "err"
+
+let mk_src (data : byte list) (sched : string) (eofwd : string) (failafter : string) : src =
+  let sc = if sched = "-" then [] else List.map (fun x -> nat_of_int (int_of_string x - 1)) (String.split_on_char ',' sched) in
+  let fa = let k = int_of_string failafter in if k < 0 then None else Some (nat_of_int k) in
+  Base { rest = data; sched = sc; eof_with_data = (eofwd = "1"); fail_after = fa }
+
+let rec base_rest_len = function Base b -> nat_to_int (length b.rest) | Multi (_, i) -> base_rest_len i
+let err_s = function EOF -> "eof" | UnexpectedEOF -> "ueof" | IOFail -> "fail" | NoProgress -> "noprogress"
+
+(* status/md, bytes pulled from the base source, whether reading the returned stream to its end
+   gives exactly what the source had to deliver, and how it ends *)
+let meta_load which data sched eofwd failafter =
+  let r = mk_src data sched eofwd failafter in
+  let total = nat_to_int (length data) in
+  let fuel = nat_of_int (total + 1) in
+  let (a, r') = match which with
+    | "png" -> let ((a, r'), _) = load_with inflate png_prog fuel r in (a, r')
+    | "jpeg" -> let ((a, r'), _) = load_with inflate jpeg_prog fuel r in (a, r')
+    | "webp" -> let ((a, r'), _) = load_with inflate webp_prog fuel r in (a, r')
+    | _ -> auto_load inflate fuel r in
+  let pulled = total - base_rest_len r' in
+  (* small inputs: actually drain the returned stream the way io.ReadAll would; large ones:
+     compare what it holds (the object of theorem load_replays_everything) *)
+  let (rd, re) = if total <= 20000 then read_all r' else (src_data r', src_end r') in
+  let want = src_data r and wend = src_end r in
+  Printf.sprintf "%s pulled=%d replay=%s end=%s" (res_md_s a) pulled (if rd = want && re = wend then "ok" else "BAD") (err_s re)
+
+let meta_pure which data =
+  let p = match which with "png" -> png_prog | "jpeg" -> jpeg_prog | _ -> webp_prog in
+  Printf.sprintf "%s consumed=%d" (res_md_s (pure_of inflate p data)) (nat_to_int (consumed_by inflate p data))
+
+let meta_first data = res_md_s (first_success inflate data)
+
 (* ---------- dispatch ---------- *)
 let handle (line : string) : string =
   match String.split_on_char ' ' line with
@@ -102,6 +157,9 @@ let handle (line : string) : string =
   | ["icc_header"; d] -> icc_header (bytes_of_hex d)
   | ["icc_tags"; d] -> icc_tags (bytes_of_hex d)
   | ["icc_desc"; d] -> icc_desc (bytes_of_hex d)
+  | ["meta_load"; which; d; sched; eofwd; fa; inf] -> load_inflate_table inf; meta_load which (bytes_of_hex d) sched eofwd fa
+  | ["meta_pure"; which; d; inf] -> load_inflate_table inf; meta_pure which (bytes_of_hex d)
+  | ["meta_first"; d; inf] -> load_inflate_table inf; meta_first (bytes_of_hex d)
   | _ -> "BAD-REQUEST"
 
 let () =
@@ -109,6 +167,7 @@ let () =
     while true do
       let line = input_line stdin in
       let reply = try handle line with
+        | Need s -> "NEED " ^ s
         | Stack_overflow -> "RUNNER-STACK-OVERFLOW"
         | Failure m -> "RUNNER-FAILURE " ^ m in
       print_string reply; print_char '\n'; flush stdout
